@@ -273,6 +273,25 @@ Definition concat_l (a b : ltable) (newfam : nat) : res ltable :=
           l_names := combine (map fst cols) (seq 0 (List.length cols));
           l_cols := map snd cols; l_sorted := true; l_dflt := KMixed |}.
 
+(* ---------- DataMatrix.__getitem__: the key, classified by the isinstance facts CPython gives for it ---------- *)
+Inductive pykey := KeyColumn | KeyStr | KeyInt | KeyBool | KeySlice | KeyNames (* non-empty list/tuple of names/columns *)
+                 | KeyEmptySeq | KeyInts (* list/tuple holding an int *) | KeyTable | KeyOther.
+(* (BaseColumn, basestring, int, slice, Sequence, all items are names): a str is a Sequence, a bool is an int,
+   all() of an empty sequence is True, a column or a DataMatrix is not a registered Sequence *)
+Definition key_facts (k : pykey) : bool * bool * bool * bool * bool * bool :=
+  match k with
+  | KeyColumn => (true, false, false, false, false, false)
+  | KeyStr => (false, true, false, false, true, true)        (* its items are one-character strings *)
+  | KeyInt | KeyBool => (false, false, true, false, false, false)
+  | KeySlice => (false, false, false, true, false, false)
+  | KeyNames => (false, false, false, false, true, true)
+  | KeyEmptySeq => (false, false, false, false, true, true)
+  | KeyInts => (false, false, false, false, true, false)
+  | KeyTable | KeyOther => (false, false, false, false, false, false)
+  end.
+Definition getitem_dispatch (k : pykey) : Z :=
+  let '(a, b, c, d, e, f) := key_facts k in k_getitem_dispatch a b c d e f.
+
 (* ---------- one L1 step on the operations whose algorithms are id-based ---------- *)
 Inductive lres := LNew (t : ltable) | LUpd (i : nat) (t : ltable) | LErr | LErrUpd (i : nat) (t : ltable) | LSkip.
 (* LErrUpd: the operation raised after a partial effect *)
